@@ -400,8 +400,66 @@ impl GRLParser {
         "MAIN".to_string()
     }
 
+    /// Remove `//` line comments and `/* ... */` block comments that are outside string
+    /// literals. `;;` module comment lines are kept verbatim.
+    fn strip_comments(text: &str) -> String {
+        let mut out = String::with_capacity(text.len());
+        let mut chars = text.chars().peekable();
+        let mut in_quotes: Option<char> = None;
+
+        while let Some(ch) = chars.next() {
+            if let Some(quote) = in_quotes {
+                out.push(ch);
+                if ch == quote {
+                    in_quotes = None;
+                }
+                continue;
+            }
+
+            match ch {
+                '"' | '\'' => {
+                    in_quotes = Some(ch);
+                    out.push(ch);
+                }
+                '/' if chars.peek() == Some(&'/') => {
+                    // Line comment: drop everything up to the line break, keep the break
+                    for c in chars.by_ref() {
+                        if c == '\n' {
+                            out.push('\n');
+                            break;
+                        }
+                    }
+                }
+                '/' if chars.peek() == Some(&'*') => {
+                    chars.next();
+                    let mut prev = '\0';
+                    for c in chars.by_ref() {
+                        if prev == '*' && c == '/' {
+                            break;
+                        }
+                        prev = c;
+                    }
+                    out.push(' ');
+                }
+                ';' if chars.peek() == Some(&';') => {
+                    // `;;` comment line (module markers): copy verbatim to the end of the line
+                    out.push(ch);
+                    for c in chars.by_ref() {
+                        out.push(c);
+                        if c == '\n' {
+                            break;
+                        }
+                    }
+                }
+                _ => out.push(ch),
+            }
+        }
+
+        out
+    }
+
     fn parse_single_rule(&mut self, grl_text: &str) -> Result<Rule> {
-        let cleaned = self.clean_text(grl_text);
+        let cleaned = self.clean_text(&Self::strip_comments(grl_text));
 
         // Extract rule components using cached regex
         let captures =
@@ -480,6 +538,9 @@ impl GRLParser {
         // Split by rule boundaries - support both quoted and unquoted rule names
         // Use DOTALL flag to match newlines in rule body
         let mut rules = Vec::new();
+
+        // Comments may contain `rule`, `}` or `;`: remove them before splitting into rules
+        let grl_text = &Self::strip_comments(grl_text);
 
         for rule_match in rule_split_regex().find_iter(grl_text) {
             let rule_text = rule_match.as_str();
